@@ -65,6 +65,16 @@ Definition file_symbols (f : dfile) : list str :=
   flat_map (enum_symbols (fl_pkg f)) (fl_enums f) ++
   flat_map (svc_symbols (fl_pkg f)) (fl_svcs f).
 
+(* the symbols of the hand-written .proto files of a package (they are linked together with it) *)
+Definition pfile_symbols (p : pfile) : list str :=
+  map (qual (pfile_pkg p)) (pf_msgs p ++ pf_enums p ++ pf_values p).
+
+Definition pkg_pfile_symbols (bd : bundle) (pkg : str) : list str :=
+  flat_map (fun f => match f with
+                     | BP p => if str_eqb (pfile_pkg p) pkg then pfile_symbols p else []
+                     | BJ _ => []
+                     end) bd.
+
 Fixpoint nodup_str (l : list str) : bool :=
   match l with
   | [] => true
